@@ -1454,7 +1454,7 @@ def check_c10(rep, tier, seed, wd, replay):
     env = dict(os.environ, VERIF_ALLOC="1")
     go_l, model_l, cr1 = cl.run_lex(lexcases, wd, "c10l", isolated=True, go_env=env)
     go_r, model_r, cr2 = cr.run_read(readcases, wd, "c10r", isolated=True, go_env=env)
-    go_p, culp = cm.run_isolated(os.path.join(cm.BUILD, "impl"), "parse", [(c["id"], c["lines"]) for c in parsecases], wd, "c10pgo", timeout=60, mem_bytes=8 << 30)
+    go_p, culp = cm.run_isolated(os.path.join(cm.BUILD, "impl"), "parse", [(c["id"], c["lines"]) for c in parsecases], wd, "c10pgo", timeout=60, mem_bytes=16 << 30)
     mod_p, mcr = cm.run_sharded(os.path.join(cm.BUILD, "model"), "parse", [(c["id"], c["lines"]) for c in parsecases], wd, "c10pmodel")
     for cmd, rc, err in cr1 + cr2 + mcr:
         rep.add_violation("executor-crash", "%s exited %s: %s" % (cmd, rc, err), [], failing_input=False)
@@ -1534,7 +1534,7 @@ def check_c10(rep, tier, seed, wd, replay):
             k = next((i for i in range(min(len(gl), len(m))) if gl[i] != m[i]), 0)
             rep.add_violation("correspondence", "case %s: Parse result differs: impl %s | model %s (input %s)" % (c["id"], gl[k][:120] if k < len(gl) else None, m[k][:120] if k < len(m) else None, c["lines"][k][:100] if k < len(c["lines"]) else None), rp, failing_input=False)
     cov = summarize(rep, len(lexcases) + len(readcases) + len(parsecases), nmut,
-                    "structured mutations of valid files (every length/offset/size/count field set to 0, 1, +-1, 2^31, 2^32-1, 2^63, 2^64-1, file size; truncation, record splicing, unknown compression, nested chunk, byte noise, random bytes) through NewLexer/Next under 4 option sets, NewReader/Info/Messages in all modes/orders, GetMetadata/GetAttachmentReader at hostile offsets, and every Parse* on every record body; each Go run isolated in a child (8 GiB address space cap, 60 s deadline, allocation accounting via runtime.MemStats); outcome and observables compared with the model; distinct = distinct mutated files",
+                    "structured mutations of valid files (every length/offset/size/count field set to 0, 1, +-1, 2^31, 2^32-1, 2^63, 2^64-1, file size; truncation, record splicing, unknown compression, nested chunk, byte noise, random bytes) through NewLexer/Next under 4 option sets, NewReader/Info/Messages in all modes/orders, GetMetadata/GetAttachmentReader at hostile offsets, and every Parse* on every record body; each Go run isolated in a child (16 GiB address space cap, 60 s deadline, allocation accounting via runtime.MemStats); outcome and observables compared with the model; distinct = distinct mutated files",
                     [cl.lex_replay(c)[:4] for c in lexcases[-2:]], dict(st, mutated_files=nmut, outcome_classes=outcome_classes))
     return cov, ["real RSS, wall-clock and stack depth are measured, not proved (partial)", "decoder internals (zstd/lz4) are outside the model"]
 
@@ -2043,7 +2043,7 @@ def check_c19(rep, tier, seed, wd, replay):
     for i in range(n // 6):
         cases.append({"id": "c19r%d" % i, "pkg": b"p", "def": bytes(r.choice(b"ab[] =#/\n\tMSG:0123") for _ in range(r.randint(0, 60))), "kind": "random"})
     scripts = [(c["id"], ["msgdef %s %s" % (cm.hx(c["pkg"]), cm.hx(c["def"]))]) for c in cases]
-    go, culprits = cm.run_isolated(os.path.join(cm.BUILD, "impl"), "ros1msg", scripts, wd, "c19go", timeout=60, mem_bytes=8 << 30)
+    go, culprits = cm.run_isolated(os.path.join(cm.BUILD, "impl"), "ros1msg", scripts, wd, "c19go", timeout=60, mem_bytes=16 << 30)
     model, mcr = cm.run_sharded(os.path.join(cm.BUILD, "model"), "ros1msg", scripts, wd, "c19model")
     for cmd, rc, err in mcr:
         rep.add_violation("executor-crash", "%s exited %s: %s" % (cmd, rc, err), [], failing_input=False)
@@ -2077,7 +2077,7 @@ def check_c19(rep, tier, seed, wd, replay):
             nd += 1
             rep.add_violation("correspondence", "case %s: impl %s | model %s" % (c["id"], g[:150], (m or "")[:150]), rp, failing_input=bool(probs))
     cov = summarize(rep, len(cases), len(set(c["def"] for c in cases)),
-                    "definitions rendered from random type graphs (depth 0-5, all primitives, fixed/variable arrays of primitives and records, qualified/unqualified/Header references) in three whitespace/comment/constant styles, compared with the generating graph (oracle) and with the model; plus hand-made hostile definitions (self/mutual recursion, unbalanced brackets, Atoi corner cases, non-ASCII white space, duplicate sections), mutated definitions and random bytes run in isolated children (60 s deadline, 8 GiB cap); distinct = distinct definition texts",
+                    "definitions rendered from random type graphs (depth 0-5, all primitives, fixed/variable arrays of primitives and records, qualified/unqualified/Header references) in three whitespace/comment/constant styles, compared with the generating graph (oracle) and with the model; plus hand-made hostile definitions (self/mutual recursion, unbalanced brackets, Atoi corner cases, non-ASCII white space, duplicate sections), mutated definitions and random bytes run in isolated children (60 s deadline, 16 GiB cap); distinct = distinct definition texts",
                     [[c["def"].decode(errors="replace")[:300]] for c in cases[:2]], dict(st, disagreements=nd, hostile=len(hostile), mutated=nmut))
     return cov, ["exponential expansion of shared nested types is inherent to the tree representation and not checked"]
 
@@ -2418,7 +2418,7 @@ def check_c18(rep, tier, seed, wd, replay):
     # well-formed trees an independent expectation; malformed definition files, index files and type names must give errors
     import gen_schemas
     scs = gen_schemas.cases(seed * 1000 + 18, 150 if tier == "quick" else 1500, 350 if tier == "quick" else 4000)
-    sgo, sculp = cm.run_isolated(impl, "schemas", [(c["id"], c["lines"]) for c in scs], wd, "c18sgo", timeout=60, mem_bytes=8 << 30)
+    sgo, sculp = cm.run_isolated(impl, "schemas", [(c["id"], c["lines"]) for c in scs], wd, "c18sgo", timeout=60, mem_bytes=16 << 30)
     smo, smcr = cm.run_sharded(os.path.join(cm.BUILD, "model"), "schemas", [(c["id"], c["lines"]) for c in scs], wd, "c18smodel")
     for cmd, rc, err in smcr:
         rep.add_violation("executor-crash", "%s exited %s: %s" % (cmd, rc, err), [], failing_input=False)
